@@ -4,6 +4,9 @@ Rules compare shapes of code; several spellings of the same behaviour must there
     N1  a > b  ->  b < a ;  a >= b -> b <= a                      (single-operator comparisons)
     N2  if not C: A else: B  ->  if C: B else: A                  (whenever there is an else / elif part)
     N6  if C: ...return / raise  else: B  ->  if C: ...return / raise ; B   (an arm that always leaves is the `if` body, the other arm follows the if)
+    N9  if a: (if b: S)  ->  if a and b: S                            (no else on either)
+    N10 X = p if c else q  /  return p if c else q  ->  the if-statement it abbreviates
+    N12 [e(k) for k in (c0, c1)]  ->  [e(c0), e(c1)]                   (literal tuple / list of constants)
     N7  X = E; <statement reading X once>  ->  <statement with E>       (X bound once and read once; adjacent statements; applied repeatedly)
     N3  X = E; return X  ->  return E                             (adjacent statements; X not captured by a nested function)
     N4  operands of + and * chains in a fixed order (constants last)   (only where no operand can be a string / list / tuple; never matrix products)
@@ -37,6 +40,27 @@ class _Exprs(ast.NodeTransformer):
         if len(n.ops) == 1 and type(n.ops[0]) in self.FLIP:
             return ast.copy_location(ast.Compare(left=n.comparators[0], ops=[self.FLIP[type(n.ops[0])]()], comparators=[n.left]), n)
         return n
+
+
+def _unroll_comp(self, n):
+    """N12: [e(k) for k in (c0, c1, ...)] over a literal tuple / list of constants is the list [e(c0), e(c1), ...]"""
+    self.generic_visit(n)
+    if len(n.generators) == 1:
+        g = n.generators[0]
+        if not g.ifs and not g.is_async and isinstance(g.target, ast.Name) and isinstance(g.iter, (ast.Tuple, ast.List)) and 1 <= len(g.iter.elts) <= 6 and all(isinstance(c, ast.Constant) for c in g.iter.elts):
+            import copy
+
+            class S(ast.NodeTransformer):
+                def __init__(s2, c):
+                    s2.c = c
+
+                def visit_Name(s2, m):
+                    return ast.copy_location(ast.Constant(value=s2.c.value), m) if (m.id == g.target.id and isinstance(m.ctx, ast.Load)) else m
+            return ast.copy_location(ast.List(elts=[S(c).visit(copy.deepcopy(n.elt)) for c in g.iter.elts], ctx=ast.Load()), n)
+    return n
+
+
+_Exprs.visit_ListComp = _unroll_comp
 
 
 def _visit_BinOp(self, n):
@@ -113,6 +137,15 @@ class _Stmts:
         i = 0
         while i < len(body):
             st = body[i]
+            # N10: a conditional expression that is the whole value of an assignment / return is the if-statement it abbreviates
+            if isinstance(st, (ast.Assign, ast.Return)) and isinstance(st.value, ast.IfExp) and (isinstance(st, ast.Return) or (len(st.targets) == 1 and isinstance(st.targets[0], ast.Name))):
+                ie = st.value
+
+                def arm(v, _st=st):
+                    if isinstance(_st, ast.Return):
+                        return ast.copy_location(ast.Return(value=v), _st)
+                    return ast.copy_location(ast.Assign(targets=[ast.Name(id=_st.targets[0].id, ctx=ast.Store())], value=v), _st)
+                st = ast.copy_location(ast.If(test=ie.test, body=[arm(ie.body)], orelse=[arm(ie.orelse)]), st)
             st = self.stmt(st)
             # N7: a temporary bound once, read once, in the very next statement, stands for its expression there (applied repeatedly, so chains of temporaries collapse)
             while ENABLE_N7 and out and self.func is not None:
@@ -252,6 +285,13 @@ class _Stmts:
         if isinstance(st, ast.Try):
             for h in st.handlers:
                 h.body = self.block(h.body)
+        # N9: if a: (if b: S)  with no else on either  ->  if a and b: S
+        while isinstance(st, ast.If) and not st.orelse and len(st.body) == 1 and isinstance(st.body[0], ast.If) and not st.body[0].orelse:
+            inner = st.body[0]
+            va = st.test.values if isinstance(st.test, ast.BoolOp) and isinstance(st.test.op, ast.And) else [st.test]
+            vb = inner.test.values if isinstance(inner.test, ast.BoolOp) and isinstance(inner.test.op, ast.And) else [inner.test]
+            st.test = ast.copy_location(ast.BoolOp(op=ast.And(), values=list(va) + list(vb)), st.test)
+            st.body = inner.body
         if isinstance(st, ast.If) and st.orelse:
             tb, te = _terminates(st.body), _terminates(st.orelse)
             t = st.test
@@ -380,6 +420,16 @@ def _qualified_functions(tree: ast.Module):
 
 def alpha_table(tree: ast.Module):
     return {q: {"digest": alpha_form(f)[0], "locals": alpha_form(f)[1]} for q, f in _qualified_functions(tree)}
+
+
+def reference_table() -> dict:
+    global _REF
+    if _REF is None:
+        try:
+            _REF = json.load(open(_REF_PATH))
+        except Exception:
+            _REF = {}
+    return _REF
 
 
 def restore_local_names(tree: ast.Module, relpath: str) -> int:
